@@ -93,7 +93,7 @@ class Net:
             self.after_put(a)
         return a
 
-    def driver(self, ch, N, items, target, long_gap=50, src="src"):
+    def driver(self, ch, N, items, target, long_gap=50, src="src", scale=1):
         """Generator process issuing at most N arrivals chosen from `items` (+ stop)."""
         env = self.env
         first = [it for it in items if it[0] != "N"]
@@ -109,10 +109,10 @@ class Net:
                 yield env.timeout(0)
                 self.step += 1
             elif gap == "L":
-                yield env.timeout(long_gap)
+                yield env.timeout(long_gap * scale)
                 self.step += 1
             else:
-                yield env.timeout(gap)
+                yield env.timeout(gap * scale)
                 self.step += 1
             self.arrive(target, flow, size, src=src)
 
